@@ -1,4 +1,4 @@
-import GeffProofs.LinkStoreMem
+import GeffProofs.LinkStoreArr
 import GeffProofs.LinkGraph
 import GeffProps.C20
 import GeffProps.C01
